@@ -151,6 +151,16 @@ def handle (op : String) (j : Json) : Except String Json := do
     let spaces ← getStr j "spaces"
     let lines ← getStrList j "lines"
     pure (jstrs (Capella.Wrap.wordWrap (fun c => spaces.contains c) (extW tbl) (← ratKey j "width") lines))
+  | "svg.label" =>
+    let tbl ← extTable j
+    let spaces ← getStr j "spaces"
+    let labels ← (← j.getObjValAs? (Array Json) "labels").toList.mapM fun l => do
+      let a ← (fromJson? l : Except String (Array String))
+      pure (a.toList.map String.toList)
+    match Capella.Wrap.renderLabels (fun c => spaces.contains c) (extW tbl) (extH tbl) (← ratKey j "rectW") (← ratKey j "rectH")
+        (← ratKey j "pad") (← ratKey j "icon") labels with
+    | some ls => pure (Json.mkObj [("lines", jstrs ls)])
+    | none => pure (Json.mkObj [("assert", Json.bool true)])
   | "svg.voverflow" =>
     let tbl ← extTable j
     let spaces ← getStr j "spaces"
